@@ -29,13 +29,13 @@ type hostileSpec struct {
 
 // cssEnv is the shared language environment for C18.
 type cssEnv struct {
-	c      *Ctx
-	A      *relang.Alphabet
-	spec   hostileSpec
-	H      map[string]*relang.DFA // hostile languages by name
-	Hall   *relang.DFA
-	vars   map[string]*pats.Var
-	lits   []string // every string literal of css/handlers.go
+	c    *Ctx
+	A    *relang.Alphabet
+	spec hostileSpec
+	H    map[string]*relang.DFA // hostile languages by name
+	Hall *relang.DFA
+	vars map[string]*pats.Var
+	lits []string // every string literal of css/handlers.go
 }
 
 func cssStringLits(c *Ctx) []string {
